@@ -749,8 +749,10 @@ class CSSSerializer:
             stacks = []
             for item in rule.seq:
                 type_, val = item.type, item.value
+                # a brace inside a string or URI is content, not a block
+                block = type_ not in ('STRING', 'URI')
                 # PRE
-                if '}' == val:
+                if block and '}' == val:
                     # close last open item on stack
                     stackblock = stacks.pop().value()
                     if stackblock:
@@ -767,7 +769,7 @@ class CSSSerializer:
                     out.append(val, type_)
 
                 # POST
-                if '{' == val:
+                if block and '{' == val:
                     # new stack level
                     stacks.append(Out(self))
 
